@@ -100,7 +100,21 @@ def run(db: ProgramDB, chk) -> None:
     else:
         bound = {}
     for k in ctor.keywords:
-        bound[k.arg] = k.value
+        if k.arg is not None:
+            bound[k.arg] = k.value
+            continue
+        # the reflective form: _CPGraphData(**{f.name: getattr(self, f.name) for f in dataclasses.fields(_CPGraphData)}) saves every field from the like-named attribute
+        dc = k.value
+        okr = isinstance(dc, ast.DictComp) and len(dc.generators) == 1 and not dc.generators[0].ifs and isinstance(dc.generators[0].target, ast.Name)
+        if okr:
+            fv = dc.generators[0].target.id
+            it_ = dc.generators[0].iter
+            okr = isinstance(it_, ast.Call) and call_name(it_).split(".")[-1] == "fields" and it_.args and H.name_id(it_.args[0]) == "_CPGraphData" \
+                and H.match(f"{fv}.name", dc.key) is not None and H.match(f"getattr(self, {fv}.name)", dc.value) is not None
+        if not okr:
+            raise AnalysisError("save: the keyword expansion in the construction of _CPGraphData is not understood: " + ast.unparse(k.value)[:120])
+        for fld_ in fields:
+            bound[fld_] = ast.Attribute(value=ast.Name(id="self", ctx=ast.Load()), attr=fld_, ctx=ast.Load())
     saved = {}
     for f, v in bound.items():
         saved[f] = v.attr if H.is_self_attr(v) else ast.unparse(v)
